@@ -24,7 +24,7 @@ META = {
     "title": "Control-flow and loop lowerings preserve program results",
     "category": "translation_validation",
     "design_ref": "DESIGN.md §5 C16",
-    "lean_modules": ["XdslProofs.C16", "XdslProofs.C16Flatten", "XdslProofs.C16Lowering"],
+    "lean_modules": ["XdslProofs.C16", "XdslProofs.C16Flatten", "XdslProofs.C16Lowering", "XdslProofs.SemMeta"],
     "text": (
         "Translation validation of convert-scf-to-cf, lower-affine, scf-for-loop-range-folding, "
         "scf-for-loop-flatten, scf-for-loop-unroll, licm, control-flow-hoist and frontend-desymrefy: "
@@ -36,7 +36,10 @@ META = {
         "and by a positive factor, flattening (i = q*N + r), full unrolling incl. zero-trip, scf.for → "
         "header/body/exit CFG by loop invariant, hoisting of a pure invariant computation out of a loop "
         "(incl. zero-trip: only for a total op) and out of a conditional. The model's folded bounds, "
-        "trip counts, induction values and flatten decisions are compared with what the real passes emit."
+        "trip counts, induction values and flatten decisions are compared with what the real passes emit. "
+        "XdslProofs/SemMeta.lean proves about the reference semantics itself that an outcome other than "
+        "'out of fuel' is unchanged by more fuel (so the single large fuel used here never changes a "
+        "verdict) and that the external-call log is append-only."
     ),
     "technique": "translation validation on a Lean reference interpreter + Lean 4 proofs of the loop-arithmetic cores + differential correspondence of the cores with the real passes",
     "level_note": (
